@@ -1329,6 +1329,8 @@ void XMLReader::project()
     if (newxta)
         parse((const xmlChar*)utap_builtin_declarations(), S_DECLARATION);
     read();
+    if (begin(tag_t::IMPORTS, false))  // used by the editor only; begin() skips unknown elements, not known ones
+        close(tag_t::IMPORTS);
     declaration();
     while (templ())
         ;
